@@ -240,11 +240,18 @@ def run(ctx):
     n_enum = len(cases)
     n_rand = (20000 if ctx.thorough() else 400) * scale
     cases += [rand_script(ctx.rng, 60) for _ in range(n_rand)]
+    # long sequences (an implementation that treats a sequence differently beyond some length — blocks, batches, a
+    # parallel fold — shows only there): New of 8 192 … 70 000 elements, folded, extended, shortened, folded again
+    longs = []
+    for n in ([8192, 10000] if not ctx.thorough() else [4096, 8191, 8192, 8193, 12289, 20000, 70000]):
+        xs = [ctx.rng.randrange(0, 1000) for _ in range(n)]
+        longs.append("N:%s F:0 L:0 C:%d:0 F:1 T:1 T:2 F:3 H:3" % (",".join(map(str, xs)), ctx.rng.randrange(1, 1000)))
+    cases += longs
     bad = malformed(ctx.rng, (300 if ctx.thorough() else 60) * scale)
     cases += bad
     if ctx.replay:
         cases = [json.load(open(ctx.replay))["case"]]
-    ctx.cov["distribution"]["stream"] = {"enumerated": n_enum, "random": n_rand, "malformed": len(bad)}
+    ctx.cov["distribution"]["stream"] = {"enumerated": n_enum, "random": n_rand, "long": len(longs), "malformed": len(bad)}
 
     rc, impl, err = ctx.run_harness(binp, [], cases)
     if len(impl) != len(cases):
